@@ -1,6 +1,17 @@
 package mon
 
-import "verifharness/fw"
+import (
+	"fmt"
+	"time"
+
+	"verifharness/chain"
+	"verifharness/fw"
+	"verifharness/gen"
+
+	vesttypes "github.com/chain4energy/c4e-chain/x/cfevesting/types"
+	sdk "github.com/cosmos/cosmos-sdk/types"
+	authtypes "github.com/cosmos/cosmos-sdk/x/auth/types"
+)
 
 const vestRuleCommon = "case = one generated vesting history on the real app through signed DeliverTx: 40-90 (thorough 80-200) messages out of create-pool / send-to-vesting-account (restart and not) / withdraw / create-vesting-account / split / move / move-by-denoms / delegate / undelegate / bank send, " +
 	"~40% deliberately invalid (too large after an implicit withdrawal, duplicate names, unknown types, existing / blocked / module recipients, strangers as signers), 4 owners, genesis and non-genesis pools, genesis vesting accounts, 5 vesting types (free 0, 1, 0.05, 1e-18, random), " +
@@ -15,6 +26,10 @@ func init() {
 		Cases:         func(t string) int { return tierN(t, 256, 3000) },
 		MinNontrivial: func(t string) int { return tierN(t, 80, 1000) },
 		Run: func(c *fw.Case) {
+			if c.Index%16 == 15 {
+				c05GenesisProbe(c)
+				return
+			}
 			e := runVestScenario(c, "C05")
 			if e == nil {
 				return
@@ -74,4 +89,63 @@ func init() {
 			c.Nontrivial((e.cov["max_lineage_depth"] >= 2 && e.cov["summaries_with_delegated_vesting"] > 0) || e.cov["max_lineage_depth"] >= 3)
 		},
 	})
+}
+
+// c05GenesisProbe: "at all times" starts at genesis. A genesis whose vesting module account is
+// not exactly backed by the listed pools (surplus, deficit, funded account without any pool)
+// must be refused by InitChain - also on a node that skips the crisis module's genesis
+// invariant assertion, which would otherwise mask a missing check of the module itself.
+func c05GenesisProbe(c *fw.Case) {
+	r := c.R
+	mkPool := func(name string, amt int64) *vesttypes.VestingPool {
+		return &vesttypes.VestingPool{Name: name, VestingType: "vt", LockStart: gen.Epoch, LockEnd: gen.Epoch.Add(time.Duration(1+r.Intn(1000)) * time.Hour),
+			InitiallyLocked: sdk.NewInt(amt), Withdrawn: sdk.ZeroInt(), Sent: sdk.ZeroInt()}
+	}
+	owner := chain.NewKey(fmt.Sprintf("c05-genesis-owner-%d", c.Index))
+	accs := []chain.GenAccount{{Account: authtypes.NewBaseAccount(owner.Addr, nil, 0, 0), Coins: sdk.NewCoins(sdk.NewCoin(vDenom, sdk.NewInt(1_000_000)))}}
+	vts := []vesttypes.GenesisVestingType{{Name: "vt", LockupPeriod: 1, LockupPeriodUnit: "day", VestingPeriod: 1, VestingPeriodUnit: "day", Free: sdk.ZeroDec()}}
+	type variant struct {
+		label   string
+		pools   int
+		surplus int64
+		valid   bool
+	}
+	d := int64(1 + r.Intn(1000))
+	variants := []variant{
+		{"consistent", 1 + r.Intn(3), 0, true},
+		{"no pools, funded module account", 0, d, false},
+		{"surplus", 1 + r.Intn(3), d, false},
+		{"deficit", 1 + r.Intn(3), -d, false},
+		{"no pools, empty module account", 0, 0, true},
+	}
+	for _, v := range variants {
+		for _, skip := range []bool{false, true} {
+			vg := &vesttypes.GenesisState{Params: vesttypes.Params{Denom: vDenom}, VestingTypes: vts}
+			if v.pools > 0 {
+				avp := &vesttypes.AccountVestingPools{Owner: owner.Bech()}
+				for i := 0; i < v.pools; i++ {
+					avp.VestingPools = append(avp.VestingPools, mkPool(fmt.Sprintf("g%d", i), 2000+int64(r.Intn(100000))))
+				}
+				vg.AccountVestingPools = []*vesttypes.AccountVestingPools{avp}
+			}
+			if skip {
+				chain.AppOptions = map[string]interface{}{"x-crisis-skip-assert-invariants": true}
+			}
+			_, err := chain.NewNode(chain.GenesisSpec{Time: gen.Epoch, Accounts: accs, Vesting: vg, VestingModuleSurplus: v.surplus})
+			chain.AppOptions = nil
+			c.Count("genesis_probes", 1)
+			switch {
+			case v.valid && err != nil:
+				c.Inconclusive("genesis probe: a consistent genesis (%s) was refused: %v", v.label, err)
+				return
+			case !v.valid && err == nil:
+				c.ViolateD("C05/unbacked-genesis-accepted", map[string]string{"variant": v.label, "skip_genesis_invariants": fmt.Sprint(skip)},
+					"InitChain accepted a genesis whose vesting module account is not backed by its pools (%s; skip-genesis-invariants=%v)", v.label, skip)
+			case !v.valid:
+				c.Count("unbacked_genesis_refused", 1)
+			}
+		}
+	}
+	c.Describe("genesis-probe", c.Index, d)
+	c.Nontrivial(true)
 }
